@@ -521,10 +521,25 @@ fn malformed_tail(d: &mut Decider, n: usize) -> Vec<String> {
             let l = wrong_len(d);
             vec![s("-e"), "Z".repeat(l)]
         }
-        2 => vec![s("-a"), s("01x")],
-        3 => vec![s("-a"), s("2")],
-        4 => vec![s("-e"), s("XQ")],
-        5 => vec![s("-e"), s("0")],
+        2 | 3 | 4 | 5 => {
+            // a string of the right length (or the one-character broadcast form) in which one or
+            // more characters are not letters of the alphabet: ASCII look-alikes, blanks, and
+            // multi-byte characters (accented, Greek, full-width and Arabic-Indic digits, an
+            // emoji, a combining mark)
+            let amp = d.coin("mbits", 1, 2);
+            let good: &[char] = if amp { &['0', '1'] } else { &['I', 'X', 'Y', 'Z', 'i', 'x', 'y', 'z'] };
+            let bad_a: &[char] = &['2', 'x', 'o', 'O', 'l', '-', '+', ' ', '\t', ',', '_', 'é', 'Χ', '０', '１', '١', '🙂', '\u{301}', 'ß', '\u{a0}'];
+            let bad_e: &[char] = &['0', '1', 'Q', 'H', 'w', '-', '+', ' ', '\t', ',', '_', 'é', 'Χ', 'Ζ', 'Ι', 'Ｘ', '🙂', '\u{301}', 'ß', '\u{a0}'];
+            let bad = if amp { bad_a } else { bad_e };
+            let len = if n == 0 || d.coin("mone", 1, 5) { 1 } else { n };
+            let mut cs: Vec<char> = (0..len).map(|_| *d.pick("mgood", good)).collect();
+            let nbad = 1 + d.choose("mnbad", 2.min(len));
+            for _ in 0..nbad {
+                let i = d.choose("mpos", len);
+                cs[i] = *d.pick("mbad", bad);
+            }
+            vec![s(if amp { "-a" } else { "-e" }), cs.into_iter().collect()]
+        }
         6 => vec![s("-a"), s("0"), s("-e"), s("Z")],
         7 => vec![s("--cats"), s("--bss")],
         8 => vec![s("--shots"), s("abc")],
@@ -604,6 +619,17 @@ impl C06 {
                 c
             }
             "empty" => HCirc::new(n),
+            "tiny" => {
+                // 1..2 qubits, a few gates: thousands of shots stay cheap
+                let n = 1 + d.choose("tn", 2);
+                let tng = 1 + d.choose("tng", 5);
+                let mut c = gen::random_circuit(d, n, tng, GateMix { allow_ccz: false, ..base }, 2);
+                if !c.has(|k| *k == GK::H) {
+                    let q = d.choose("thq", n);
+                    c.gates.insert(0, HGate { k: GK::H, qs: vec![q] });
+                }
+                c
+            }
             "deeper" => {
                 // 5..8 qubits, 15..45 gates, at most 5 non-Clifford gates
                 let n = 5 + d.choose("dn", 4);
@@ -762,6 +788,7 @@ impl Property for C06 {
             SubBatch { name: "sysfaults", quick: 1_000, thorough: 12_000 },
             SubBatch { name: "stats", quick: 48, thorough: 600 },
             SubBatch { name: "wide", quick: 160, thorough: 4_000 },
+            SubBatch { name: "many_shots", quick: 64, thorough: 1_200 },
             SubBatch { name: "deeper", quick: 1_200, thorough: 30_000 },
         ]
     }
@@ -782,6 +809,7 @@ impl Property for C06 {
     fn generate(&self, d: &mut Decider, tier: Tier, sub: &str) -> Sc {
         let family = match sub {
             "malformed" | "child" | "faults" | "sysfaults" | "stats" => "clifford_t",
+            "many_shots" => "tiny",
             "child_threads" => "t_heavier",
             s => s,
         };
@@ -854,8 +882,12 @@ impl Property for C06 {
                     Query::Shots(k) => Query::Shots(k.min(3)),
                     q => q,
                 };
+                // enough shots for the per-position drift test (S4) in a quarter of the runs
+                let q = if d.coin("wmany", 1, 4) { Query::Shots(64 + d.choose("wshots", 17)) } else { q };
                 (q, Mode::InProcess)
             }
+            // batch-size and buffer boundaries of the sampling loop and of the result writer
+            "many_shots" => (Query::Shots(*d.pick("mshots", &[1000usize, 2048, 4095, 4096, 4097, 5000, 8191, 8192, 8193, 10_000, 12_289, 16_385])), Mode::InProcess),
             _ => (gen_query(d, n, 16), Mode::InProcess),
         };
         let parallel = if sub == "child_threads" { Some(d.choose("pdepth", 4)) } else { parallel };
@@ -926,7 +958,7 @@ impl Property for C06 {
                     Some(_) => None,
                     None => Some(2),
                 };
-                let variants = if sub == "stats" {
+                let variants = if sub == "stats" || sub == "many_shots" {
                     vec![(sc.method, sc.parallel)]
                 } else {
                     vec![(sc.method, sc.parallel), (other_method, sc.parallel), (sc.method, other_par)]
@@ -971,6 +1003,7 @@ impl Property for C06 {
                                     if sub == "stats" {
                                         chi_square(&mut j, &text, &how);
                                     }
+                                    drift(&mut j, &text, &how);
                                 }
                             }
                             Err(e) => j.vio("success_without_output", format!("{how}: reported success but the -o file cannot be read: {e}")),
@@ -1330,6 +1363,62 @@ impl Property for C06 {
             }
         }
         c
+    }
+}
+
+/// S4: drift of the printed bits against their conditional probabilities, per qubit position and
+/// over all draws.  For every printed sample and every position k the reference model gives
+/// c = P(bit k = 1 | the k bits printed before it); over the N draws of a group whose c is strictly
+/// between 0 and 1, Hoeffding's inequality bounds P(|sum(bit - c)| >= t) by 2 exp(-2 t^2 / N).  A
+/// group is reported when that bound is below 1e-12.  Works for registers of any width (only the
+/// factor holding the next qubit is needed), needs no hook, and is deterministic because the
+/// decider owns the sampler's randomness.
+fn drift(j: &mut Judge, text: &str, how: &str) {
+    let t = j.t;
+    if t.n == 0 {
+        return;
+    }
+    let lines: Vec<&str> = text.trim_end_matches('\n').split('\n').collect();
+    if lines.len() < 20 {
+        return;
+    }
+    let mut d = vec![0.0f64; t.n + 1];
+    let mut n = vec![0usize; t.n + 1];
+    for l in &lines {
+        let bits: Option<Vec<bool>> = l.chars().map(|c| match c { '0' => Some(false), '1' => Some(true), _ => None }).collect();
+        let b = match bits {
+            Some(b) if b.len() == t.n => b,
+            _ => return, // malformed samples are S1's business
+        };
+        for k in 0..t.n {
+            let (pp, p1) = t.next_bit(&b[..k]);
+            if pp <= 1e-12 {
+                break; // impossible prefix: S1 reports it
+            }
+            let c = p1 / pp;
+            if c > 1e-9 && c < 1.0 - 1e-9 {
+                let x = if b[k] { 1.0 - c } else { -c };
+                d[k] += x;
+                n[k] += 1;
+                d[t.n] += x;
+                n[t.n] += 1;
+            }
+        }
+    }
+    j.out.probe("drift_checked");
+    for k in 0..=t.n {
+        if n[k] == 0 {
+            continue;
+        }
+        let bound = 2.0 * (-2.0 * d[k] * d[k] / n[k] as f64).exp();
+        if bound < 1e-12 {
+            let what = if k == t.n { "all positions together".to_string() } else { format!("bit {k}") };
+            j.vio(
+                "samples_drift_from_conditionals",
+                format!("{how}: {} samples, {what}: {} non-deterministic draws, sum of (bit - conditional probability) = {:.1} (Hoeffding bound {:.1e})", lines.len(), n[k], d[k], bound),
+            );
+            return;
+        }
     }
 }
 
